@@ -54,8 +54,9 @@ try:
                     shutil.copy(new[0], dst)
                     chk = sh("./check --replay %s" % dst, cwd="/verif")
                     if chk.returncode != 0:
-                        os.remove(dst)
-                        res["check_" + c]["replay"] = "not kept (does not hold on the unchanged tree)"
+                        os.makedirs("/tmp/rejected_replays", exist_ok=True)
+                        shutil.move(dst, "/tmp/rejected_replays/seed_%s_%s.json" % (name, c))
+                        res["check_" + c]["replay"] = "not kept (does not hold on the unchanged tree): " + chk.stdout[-600:]
                     else:
                         res["check_" + c]["replay"] = os.path.relpath(dst, "/verif")
 finally:
